@@ -145,6 +145,17 @@ def compare_obs(mo, io, tol=1e-9, keys=None, traj_tol=1e-7):
         if merr != ierr:
             diffs.append("raise mismatch: model %s / impl %s" % (mo.get("error"), io.get("error")))
         return diffs
+    if "history" in mo:
+        if "history" not in io or len(io["history"]) != len(mo["history"]):
+            return ["history: lengths differ"]
+        for i, (a, b) in enumerate(zip(mo["history"], io["history"])):
+            if (a is None) != (b is None):
+                diffs.append("history call %d: one side returned nothing" % i)
+            elif a is not None:
+                for d in compare_obs(a, b, tol, None, traj_tol):
+                    if not d.startswith("SKIP"):
+                        diffs.append("history call %d: %s" % (i, d))
+        return diffs
     for k in mo:
         if keys is not None and k not in keys:
             continue
